@@ -37,7 +37,7 @@ def result_text(m):
     return one_line(r, 400)
 
 
-out = [open(os.path.join(VERIF, 'docs', 'design_head.md')).read().rstrip().replace('{{N_FIXED}}', str(len(kf['fixed']))).replace('{{N_FINDINGS}}', str(len(kf['findings']))).replace('{{N_SEEDED}}', str(len(glob.glob(os.path.join(VERIF, 'seeded', '*')))))
+out = [open(os.path.join(VERIF, 'docs', 'design_head.md')).read().rstrip().replace('{{N_FIXED}}', str(len(kf['fixed']))).replace('{{N_FINDINGS}}', str(len(kf['findings']))).replace('{{N_SEEDED}}', str(len(glob.glob(os.path.join(VERIF, 'seeded', 'C*')))))
        , '']
 out.append('## 9. Summary tables (generated)\n')
 out.append('| id | title | theorems | cases per quick run | seeded changes caught | fixes | recorded findings |')
